@@ -37,6 +37,7 @@ typedef struct {
     void (*freef)(void *o);
     int (*canon)(void *o, uint8_t *k);
     void (*oneshot)(int a, uint8_t *out, size_t n); /* library one-shot for input prefix a: n output bytes */
+    size_t (*single)(int a, uint8_t *out, size_t n); /* where the one-shot above has to be spelled with the incremental calls: the single-call function itself, for as many bytes as it can give */
     void (*refshot)(int a, uint8_t *out, size_t n); /* reference */
 } machine;
 
@@ -245,6 +246,7 @@ static void xof_oneshot(int a, uint8_t *out, size_t n)
 {   /* the library's own single-call sequence */
     objbuf o; xof_init(&o); xof_absorb(&o, MSG, 0, a); xof_squeeze(&o, out, n); xof_free(&o);
 }
+static size_t xof_single(int a, uint8_t *out, size_t n) { if (XINIT) return 0; if (n > 32) n = 32; uint8_t t[32]; if (XA) ascon_xofa(t, MSG, a); else ascon_xof(t, MSG, a); memcpy(out, t, n); return n; }
 static void xof_ref(int a, uint8_t *out, size_t n)
 {
     if (XINIT == 0) ref_xof(XA, MSG, a, out, n); else if (XINIT == 1) ref_xof_fixed(XA, 40, MSG, a, out, n);
@@ -267,6 +269,7 @@ static void prf_squeeze(void *o, uint8_t *out, size_t n) { ascon_prf_squeeze(o, 
 static void prf_free(void *o) { ascon_prf_free(o); }
 static int prf_canon(void *o, uint8_t *k) { ascon_prf_state_t *x = o; canon_perm(&x->state, k); k[40] = x->count; k[41] = x->mode; return 42; }
 static void prf_oneshot(int a, uint8_t *out, size_t n) { if (XINIT) { objbuf o; prf_init(&o); ascon_prf_absorb((void *)&o, MSG, a); ascon_prf_squeeze((void *)&o, out, n); prf_free(&o); } else ascon_prf(out, n, MSG, a, KEY); }
+static size_t prf_single(int a, uint8_t *out, size_t n) { if (!XINIT) return 0; if (n > 40) n = 40; uint8_t t[40]; ascon_prf_fixed(t, 40, MSG, a, KEY); memcpy(out, t, n); return n; }
 static void prf_ref(int a, uint8_t *out, size_t n) { ref_prf(KEY, XINIT ? 40 : 0, MSG, a, out, n); }
 /* kmac / kmaca (declared 40) */
 static void kmac_init(void *o) { if (XA) ascon_kmaca_init(o, KEY, 19, CUSTOM, 5, 40); else ascon_kmac_init(o, KEY, 19, CUSTOM, 5, 40); }
@@ -275,6 +278,7 @@ static void kmac_absorb(void *o, const uint8_t *in, uint8_t *out, size_t n) { (v
 static void kmac_squeeze(void *o, uint8_t *out, size_t n) { if (XA) ascon_kmaca_squeeze(o, out, n); else ascon_kmac_squeeze(o, out, n); }
 static void kmac_free(void *o) { if (XA) ascon_kmaca_free(o); else ascon_kmac_free(o); }
 static void kmac_oneshot(int a, uint8_t *out, size_t n) { objbuf o; kmac_init(&o); kmac_absorb(&o, MSG, 0, a); kmac_squeeze(&o, out, n); kmac_free(&o); }
+static size_t kmac_single(int a, uint8_t *out, size_t n) { if (n > 40) n = 40; uint8_t t[40]; if (XA) ascon_kmaca(KEY, 19, MSG, a, CUSTOM, 5, t, 40); else ascon_kmac(KEY, 19, MSG, a, CUSTOM, 5, t, 40); memcpy(out, t, n); return n; }
 static void kmac_ref(int a, uint8_t *out, size_t n) { ref_cxof2(XA, (const uint8_t *)"KMAC", 4, CUSTOM, 5, 40, KEY, 19, MSG, a, out, n); }
 /* kdf / kdfa: squeeze only */
 static void kdf_init(void *o) { if (XA) ascon_kdfa_init(o, KEY, 21, CUSTOM, 7, 40); else ascon_kdf_init(o, KEY, 21, CUSTOM, 7, 40); }
@@ -282,6 +286,7 @@ static void kdf_reinit(void *o, int v) { (void)v; if (XA) ascon_kdfa_reinit(o, K
 static void kdf_squeeze(void *o, uint8_t *out, size_t n) { if (XA) ascon_kdfa_squeeze(o, out, n); else ascon_kdf_squeeze(o, out, n); }
 static void kdf_free(void *o) { if (XA) ascon_kdfa_free(o); else ascon_kdf_free(o); }
 static void kdf_oneshot(int a, uint8_t *out, size_t n) { (void)a; objbuf o; kdf_init(&o); kdf_squeeze(&o, out, n); kdf_free(&o); }
+static size_t kdf_single(int a, uint8_t *out, size_t n) { (void)a; if (n > 40) n = 40; uint8_t t[40]; if (XA) ascon_kdfa(t, 40, KEY, 21, CUSTOM, 7); else ascon_kdf(t, 40, KEY, 21, CUSTOM, 7); memcpy(out, t, n); return n; }
 static void kdf_ref(int a, uint8_t *out, size_t n) { (void)a; ref_cxof(XA, (const uint8_t *)"KDF", 3, CUSTOM, 7, 40, KEY, 21, out, n); }
 /* hmac / hmaca */
 static void hmac_init(void *o) { if (XA) ascon_hmaca_init(o, KEY, 23); else ascon_hmac_init(o, KEY, 23); }
@@ -394,19 +399,19 @@ int main(int argc, char **argv)
     XINIT = variant;
     if (!strcmp(base, "xof") || !strcmp(base, "xofa")) {
         XA = !strcmp(base, "xofa"); m = mk(mn, 8, 8); m.has_absorb = 1; m.has_copy = 1; m.n_reinit = 1;
-        m.init = xof_init; m.reinit = xof_reinit; m.absorb = xof_absorb; m.squeeze = xof_squeeze; m.copy = xof_copy; m.freef = xof_free; m.canon = xof_canon; m.oneshot = xof_oneshot; m.refshot = xof_ref;
+        m.init = xof_init; m.reinit = xof_reinit; m.absorb = xof_absorb; m.squeeze = xof_squeeze; m.copy = xof_copy; m.freef = xof_free; m.canon = xof_canon; m.oneshot = xof_oneshot; m.single = xof_single; m.refshot = xof_ref;
     } else if (!strcmp(base, "hash") || !strcmp(base, "hasha")) {
         XA = !strcmp(base, "hasha"); m = mk(mn, 8, 8); m.has_absorb = 1; m.has_copy = 1; m.n_reinit = 1; m.terminal = 1; m.final_len = 32;
         m.init = hash_init; m.reinit = hash_reinit; m.absorb = hash_absorb; m.final = hash_final; m.copy = hash_copy; m.freef = hash_free; m.canon = xof_canon; m.oneshot = hash_oneshot; m.refshot = hash_ref;
     } else if (!strcmp(base, "prf")) {
         m = mk(mn, 32, 16); m.has_absorb = 1; m.n_reinit = 1;
-        m.init = prf_init; m.reinit = prf_reinit; m.absorb = prf_absorb; m.squeeze = prf_squeeze; m.freef = prf_free; m.canon = prf_canon; m.oneshot = prf_oneshot; m.refshot = prf_ref;
+        m.init = prf_init; m.reinit = prf_reinit; m.absorb = prf_absorb; m.squeeze = prf_squeeze; m.freef = prf_free; m.canon = prf_canon; m.oneshot = prf_oneshot; m.single = prf_single; m.refshot = prf_ref;
     } else if (!strcmp(base, "kmac") || !strcmp(base, "kmaca")) {
         XA = !strcmp(base, "kmaca"); m = mk(mn, 8, 8); m.has_absorb = 1; m.n_reinit = 1;
-        m.init = kmac_init; m.reinit = kmac_reinit; m.absorb = kmac_absorb; m.squeeze = kmac_squeeze; m.freef = kmac_free; m.canon = xof_canon; m.oneshot = kmac_oneshot; m.refshot = kmac_ref;
+        m.init = kmac_init; m.reinit = kmac_reinit; m.absorb = kmac_absorb; m.squeeze = kmac_squeeze; m.freef = kmac_free; m.canon = xof_canon; m.oneshot = kmac_oneshot; m.single = kmac_single; m.refshot = kmac_ref;
     } else if (!strcmp(base, "kdf") || !strcmp(base, "kdfa")) {
         XA = !strcmp(base, "kdfa"); m = mk(mn, 8, 8); m.n_reinit = 1;
-        m.init = kdf_init; m.reinit = kdf_reinit; m.squeeze = kdf_squeeze; m.freef = kdf_free; m.canon = xof_canon; m.oneshot = kdf_oneshot; m.refshot = kdf_ref;
+        m.init = kdf_init; m.reinit = kdf_reinit; m.squeeze = kdf_squeeze; m.freef = kdf_free; m.canon = xof_canon; m.oneshot = kdf_oneshot; m.single = kdf_single; m.refshot = kdf_ref;
     } else if (!strcmp(base, "hmac") || !strcmp(base, "hmaca")) {
         XA = !strcmp(base, "hmaca"); m = mk(mn, 8, 8); m.has_absorb = 1; m.n_reinit = 1; m.terminal = 1; m.final_len = 32;
         m.init = hmac_init; m.reinit = hmac_reinit; m.absorb = hmac_absorb; m.final = hmac_final; m.freef = hmac_free; m.canon = xof_canon; m.oneshot = hmac_oneshot; m.refshot = hmac_ref;
@@ -442,6 +447,7 @@ int main(int argc, char **argv)
             EXP[a] = malloc(need + 8); uint8_t *r = malloc(need + 8);
             m.oneshot(a, EXP[a], need); m.refshot(a, r, need);
             if (memcmp(EXP[a], r, need)) hx_fail(kb, "one-shot result differs from the reference for inlen=%d (see C03-C05)", a);
+            if (m.single) { size_t k = m.single(a, r, need); if (k && memcmp(EXP[a], r, k)) hx_fail(kb, "the single-call function gives other bytes than init+absorb+squeeze for inlen=%d (first %d bytes compared)", a, (int)k); }
             free(r);
         }
     }
